@@ -239,10 +239,11 @@ def run(ctx):
         "traces_validated_against_impl": n + cn, "samples": samples,
         "cases_by_kind": kinds, "types": types, "fresh_type_identities": idents,
         "rule": "evaluations = Bind/BindAndValidate calls on the real binder, each validated against Binding.tla. "
-                "TLC enumerates EVERY single-field type (11 kinds x every tag subset of size <= %d x required on none/one/all "
+                "TLC enumerates EVERY single-field type (" + ("11" if q else "26") + " kinds x every tag subset of size <= %d x required on none/one/all "
                 "tags x default none/one) with EVERY presence pattern over its tagged sources (+ the form->query fallback), "
                 "2 systematic (distinct values; winner present-but-empty) + %d seeded random text assignments each; plus seeded multi-field types (2..6 fields sharing "
-                "names), orders of first use over 2..3 types, and concurrent binds%s. distinct_nontrivial = requests of the "
+                "names, all 26 kinds), the boundary sweep (21 integer kinds x 6 sources x 31 texts at the width limits), orders of "
+                "first use over 2..3 types, and concurrent binds%s. distinct_nontrivial = requests of the "
                 "case files in which, for some field, at least two of its tagged sources are present (priority decides) "
                 "or nothing is present and a default/required rule decides."
                 % (3 if q else 6, 1 if q else 3, "" if q else " of 3..4 types under the race detector"),
